@@ -371,12 +371,11 @@ def scan_trusted(text, B):
             if i in item_lines:
                 raise UnitError(f"assume/admit inside an extracted function or its proof (generated line {i})")
             out.append(f"line {i}: {s[:120]}")
-        if "external_body" in s or "assume_specification" in s or "verifier::external" in s or "#[verifier::external_type_specification]" in s or "uninterp" in s:
-            # name the item that follows
-            nxt = s
-            for j in range(i, min(i + 6, len(lines))):
-                if re.search(r"\b(fn|struct|enum|type)\b", lines[j]) :
-                    nxt = s + " " + lines[j].strip() if j != i - 1 else s
-                    break
-            out.append(nxt[:200])
+        if "external_body" in s or "assume_specification" in s or "verifier::external" in s or "uninterp" in s:
+            desc = s
+            if not re.search(r"\b(fn|struct|enum|type)\b|assume_specification", s):
+                for j in range(i, min(i + 6, len(lines))):
+                    if lines[j].strip() and not lines[j].strip().startswith(("#", "//")):
+                        desc = s + " " + lines[j].strip(); break
+            out.append(re.sub(r"\s+", " ", desc)[:220])
     return out
